@@ -252,6 +252,25 @@ Section Scopes.
     | Term => ([], Term) | NoFuel => ([], NoFuel) | Stale => ([], Stale)
     end.
 
+  (* VisitKeys after ResetKey and SetPosition(mStartPos): for (mIndex = 0; mIndex < mSize;) { ReadKey(fn); ResetKey(); } *)
+  Fixpoint visit_loop (fuel : nat) (st : oscope) (rest : list N) (acc : list key) : list tok * out oscope :=
+    match fuel with
+    | O => ([], NoFuel)
+    | S f =>
+      if o_index st <? o_size st then
+        match read_key rest with
+        | KOk k r1 =>
+          match reset_key (set_key st (Some k)) r1 with
+          | Go st2 r2 => visit_loop f st2 r2 (acc ++ [key_of_skey k])
+          | other => ([], other)
+          end
+        | KRaise e clean => ([], Raise (SE e) st (if clean then Some rest else None))
+        | KStale => ([], Stale)
+        | KFuel => ([], NoFuel)
+        end
+      else ([KKeys acc], Go st rest)
+    end.
+
   (* ---------- the scopes driven by a program ---------- *)
   Fixpoint run_req (r : req) (st : oscope) (rest : list N) {struct r} : list tok * out oscope :=
     match r with
@@ -313,24 +332,7 @@ Section Scopes.
         (fun e s p => Raise e s p)
     | RVisit =>                                                   (* VisitKeys *)
       match reset_key st rest with
-      | Go st1 _ =>
-        (fix visit (fuel : nat) (st : oscope) (rest : list N) (acc : list key) : list tok * out oscope :=
-           match fuel with
-           | O => ([], NoFuel)
-           | S f =>
-             if o_index st <? o_size st then
-               match read_key rest with
-               | KOk k r1 =>
-                 match reset_key (set_key st (Some k)) r1 with
-                 | Go st2 r2 => visit f st2 r2 (acc ++ [key_of_skey k])
-                 | other => ([], other)
-                 end
-               | KRaise e clean => ([], Raise (SE e) st (if clean then Some rest else None))
-               | KStale => ([], Stale)
-               | KFuel => ([], NoFuel)
-               end
-             else ([KKeys acc], Go st rest)
-           end) (S (length (o_start st1))) (set_index st1 0) (o_start st1) []
+      | Go st1 _ => visit_loop (S (length (o_start st1))) (set_index st1 0) (o_start st1) []
       | other => ([], other)
       end
     end
